@@ -92,9 +92,9 @@ def separatedHistory : List (Op Nat) :=
    .setAllList [1, 2, 3] false]
 
 -- non-vacuity of `tied_stays_tied_partial`: the three hypotheses hold for `separatedHistory`, with 3 groups at the end
-example : WellPhased separatedHistory ∧ WellNamed arithN ⟨true, true⟩ (State.empty 0 true) separatedHistory ∧
-    WellSeparated arithN ⟨true, true⟩ (State.empty 0 true) separatedHistory ∧
-    (run arithN ⟨true, true⟩ (State.empty 0 true) separatedHistory).same.length = 3 := by
+example : WellPhased separatedHistory ∧ WellNamed arithN ⟨true, true, false, false⟩ (State.empty 0 true) separatedHistory ∧
+    WellSeparated arithN ⟨true, true, false, false⟩ (State.empty 0 true) separatedHistory ∧
+    (run arithN ⟨true, true, false, false⟩ (State.empty 0 true) separatedHistory).same.length = 3 := by
   unfold WellPhased WellNamed WellSeparated; decide +kernel
 
 /-- a complex parameter tied through a part (`qi` to the fixed real `x`) and then as a whole (`p`, `q`) -/
@@ -106,9 +106,9 @@ def mixedHistory : List (Op Nat) :=
 `WellNamed`, but the second call re-binds `qi` to the object of `pi` and leaves `x` behind — `x` and `qi` are still
 listed in one `same_list` group and are bound to different objects.  "Counted once" still holds. -/
 theorem tied_stays_tied_refuted_outside :
-    let s := run arithN ⟨true, true⟩ (State.empty 0 true) mixedHistory
-    wellPhasedFrom 0 mixedHistory = true ∧ wellNamedFrom arithN ⟨true, true⟩ (State.empty 0 true) mixedHistory = true ∧
-      wellSepFrom arithN ⟨true, true⟩ (State.empty 0 true) mixedHistory = false ∧
+    let s := run arithN ⟨true, true, false, false⟩ (State.empty 0 true) mixedHistory
+    wellPhasedFrom 0 mixedHistory = true ∧ wellNamedFrom arithN ⟨true, true, false, false⟩ (State.empty 0 true) mixedHistory = true ∧
+      wellSepFrom arithN ⟨true, true, false, false⟩ (State.empty 0 true) mixedHistory = false ∧
       ["x", "qi"] ∈ s.same ∧ cellOf s "x" ≠ cellOf s "qi" ∧ readN s "x" ≠ readN s "qi" := by
   decide +kernel
 
@@ -135,9 +135,9 @@ theorem coordinate_op_frame_partial (A : Arith V) (cfg : Cfg) (s : State V) (c d
 radius; `rp2xy(p)` overwrites the shared object with `r·cos φ_p`, so the stored radius of `q` changes while `q` is
 still flagged polar — its complex value changes although the call did not name it. -/
 theorem shared_radius_coordinate_op_moves_partner :
-    let s := run arithN ⟨true, true⟩ (State.empty 0 true)
+    let s := run arithN ⟨true, true, false, false⟩ (State.empty 0 true)
       [.addComplex "p" (some true) false 2 3, .addComplex "q" (some true) false 5 7, .setShareR ["p", "q"]]
-    let t := (step arithN ⟨true, true⟩ s (.rp2xy "p")).1
+    let t := (step arithN ⟨true, true, false, false⟩ s (.rp2xy "p")).1
     cellOf s "qr" = cellOf s "pr" ∧ readN s "qr" = some 2 ∧ readN t "qr" = some 6 ∧
       dget t.cplx "q" = some true ∧ readN t "qi" = readN s "qi" := by
   decide +kernel
